@@ -98,7 +98,7 @@ class Pipe(object):
         self.eof = False
 
 
-def one(case, acc, prefix='asyncio-path'):
+def one(case, acc, prefix='asyncio-path', scale=1):
     c14.install()
     acc.case()
     acc.count('async_model_histories')
@@ -184,7 +184,7 @@ def one(case, acc, prefix='asyncio-path'):
                     continue
                 end = 'eof' if pipe.eof else 'timeout'
                 break
-            Tc = call.get('T', T)
+            Tc = call.get('T', T) * scale
             kw = {'timeout': None if call['abandon'] else Tc, 'searchwindowsize': W}
             if call['op'] == 'expect':
                 co = c.expect(pats, async_=True, **kw)
@@ -272,6 +272,7 @@ def one(case, acc, prefix='asyncio-path'):
 
 
 def run(spec, acc, prefix='asyncio-path'):
+    from ..core.acc import Acc
     from ..core.watchdog import watchdog, CaseTimeout
     if 'replay' in spec:
         cases = [spec['replay']]
@@ -281,8 +282,21 @@ def run(spec, acc, prefix='asyncio-path'):
     for case in cases:
         try:
             with watchdog(60):
-                one(case, acc, prefix)
+                first = Acc()
+                one(case, first, prefix)
+                if first.violations:
+                    # the timeouts in these histories are 50-250 ms of wall-clock time: on a loaded machine an await
+                    # that should match may simply not get its turn in time.  A violation counts only if it is still
+                    # there when every timeout of the history is twenty times as long (logic errors do not care).
+                    with watchdog(240):
+                        again = Acc()
+                        one(case, again, prefix, scale=20)
+                    if not again.violations:
+                        first.violations = []
+                        first.viol_counts = {}
+                        first.count('async_model_unconfirmed_under_longer_timeouts')
+                acc.merge(first.dump())
         except CaseTimeout as e:
-            acc.violation(prefix + ':await-does-not-return', 'history did not finish within 60 s (%s)' % (e,), case)
+            acc.violation(prefix + ':await-does-not-return', 'history did not finish within its watchdog (%s)' % (e,), case)
         if acc.too_many():
             break
